@@ -759,7 +759,9 @@ func runC18(rc *RunCtx) {
 				}
 			case k < 52 && ri >= 0:
 				if rc.Chance(0.5) {
-					if !s.del(ri, e.From, e.Time+int64(1-2*rc.Intn(2)), "recipient-wrong-time") {
+					// a time at which nothing was delivered: a neighbour, or a number whose decimal spelling is a prefix / an extension of the real one
+					wrongT := []int64{e.Time + 1, e.Time - 1, e.Time / 10, e.Time / 1000, c18FirstDigit(e.Time), e.Time * 10}[rc.Intn(6)]
+					if !s.del(ri, e.From, wrongT, "recipient-wrong-time") {
 						return
 					}
 				} else if !s.del(ri, c.Accs[(si+1+rc.Intn(3))%4].Bech, e.Time, "recipient-wrong-sender") {
@@ -887,4 +889,11 @@ func c18PrefixExtension(addr string) (string, bool) {
 		return "", false
 	}
 	return out, true
+}
+
+func c18FirstDigit(v int64) int64 {
+	for v >= 10 {
+		v /= 10
+	}
+	return v
 }
